@@ -1,7 +1,7 @@
 (* C44 — proofs, part 3: float and timedelta (integer-valued numerals are exact). *)
 From Coq Require Import List ZArith NArith Bool Lia.
 Import ListNotations.
-From TV Require Import C44.Model C44.Proofs1.
+From TV Require Import Lib.Obs C44.Model C44.Run C44.Proofs1.
 Local Open Scope Z_scope.
 
 (* ------------------------------------------------------------------ *)
@@ -40,7 +40,6 @@ Qed.
 
 (* ------------------------------------------------------------------ *)
 (* rounding an integer below 2^53 is exact                             *)
-Definition two53 : Z := 9007199254740992.
 Lemma two53_eq : 2 ^ 53 = two53. Proof. reflexivity. Qed.
 
 Lemma round_pos_int n : 0 < n < two53 -> exists k, 0 <= k /\ round_pos n 1 = FFin (n * 2 ^ k) (- k).
@@ -148,29 +147,6 @@ Qed.
 
 (* ------------------------------------------------------------------ *)
 (* timedelta                                                           *)
-Inductive tdunit := Uh | Uhours | Um | Umin | Uminutes | Us | Usec | Useconds
-                  | Ums | Umilliseconds | Uus | Umicroseconds | Ud | Udays | Uw | Uweeks.
-Definition unit_text (u : tdunit) : text :=
-  match u with
-  | Uh => [104] | Uhours => [104;111;117;114;115]
-  | Um => [109] | Umin => [109;105;110] | Uminutes => [109;105;110;117;116;101;115]
-  | Us => [115] | Usec => [115;101;99] | Useconds => [115;101;99;111;110;100;115]
-  | Ums => [109;115] | Umilliseconds => [109;105;108;108;105;115;101;99;111;110;100;115]
-  | Uus => [117;115] | Umicroseconds => [109;105;99;114;111;115;101;99;111;110;100;115]
-  | Ud => [100] | Udays => [100;97;121;115]
-  | Uw => [119] | Uweeks => [119;101;101;107;115]
-  end%N.
-Definition unit_us (u : tdunit) : Z :=
-  match u with
-  | Uh | Uhours => 3600000000
-  | Um | Umin | Uminutes => 60000000
-  | Us | Usec | Useconds => 1000000
-  | Ums | Umilliseconds => 1000
-  | Uus | Umicroseconds => 1
-  | Ud | Udays => 86400000000
-  | Uw | Uweeks => 604800000000
-  end.
-
 Lemma unit_factor_text u : unit_factor (unit_text u) = Some (unit_us u).
 Proof. destruct u; reflexivity. Qed.
 Lemma unit_text_word u : forallb is_word (unit_text u) = true.
@@ -325,4 +301,166 @@ Proof.
     apply Z.leb_le in H1, H2.
     unfold terms_ok, term_us, td_in_range, max_days, us_per_day, us_per_s, two53. cbn [fst snd unit_us].
     repeat split; try (apply andb_true_iff; split; apply Z.leb_le); try (dm; lia).
+Qed.
+
+(* ------------------------------------------------------------------ *)
+(* the reference reading td_ref (Run.v) is sound for the model: whenever it reads a text as
+   the sum S of its components, parse_timedelta returns S *)
+Definition unit_ok (ut rest : text) : Prop :=
+  (ut = [] /\ rest = []) \/ (exists u, ut = unit_text u /\ rest_ok rest).
+
+Lemma td_round_gen fuel s ds ut f rest sum :
+  digits ds -> ds <> [] -> Z.of_N (digits_val ds 0) < two53 ->
+  unit_factor ut = Some f -> unit_ok ut rest ->
+  td_loop (S fuel) (sign_text s ++ ds ++ ut ++ rest) sum =
+    if td_in_range (apply_sign s (digits_val ds 0) * f) then
+      if td_in_range (sum + apply_sign s (digits_val ds 0) * f)
+      then td_loop fuel (tl rest) (sum + apply_sign s (digits_val ds 0) * f)
+      else Err EOverflowError
+    else Err EOverflowError.
+Proof.
+  intros Hd Hne Hb Hf Hu.
+  assert (Hhd : exists c0 r0, sign_text s ++ ds ++ ut ++ rest = c0 :: r0 /\ is_ws_re c0 = false).
+  { destruct s as [[|]|]; simpl; [eexists; eexists; split; reflexivity..|].
+    destruct ds as [|d ds']; [contradiction|]. inversion Hd; subst. exists d, (ds' ++ ut ++ rest).
+    split; [reflexivity|apply digit_not_ws_re; auto]. }
+  destruct Hhd as [c0 [r0 [E0 Hc0]]].
+  rewrite E0. cbn [td_loop]. rewrite (lstrip_head is_ws_re c0 _ Hc0). rewrite <- E0.
+  assert (Ess : split_sign (sign_text s ++ ds ++ ut ++ rest)
+                = (match s with Some true => true | _ => false end, ds ++ ut ++ rest)).
+  { destruct s as [[|]|]; simpl; auto.
+    destruct ds as [|d ds']; [contradiction|]. inversion Hd; subst. apply digit_range in H1. simpl.
+    destruct (N.eqb_spec d 45); [lia|]. destruct (N.eqb_spec d 43); [lia|]. reflexivity. }
+  rewrite Ess. clear Ess.
+  assert (Hnt : num_tail_ok (ut ++ rest)).
+  { destruct Hu as [[-> ->]|[u [-> Hr]]]; [exact I|].
+    destruct (unit_text_head u) as [cu [ru [Eu [Hu1 [Hu2 [Hu3 [Hu4 Hu5]]]]]]]. rewrite Eu. simpl. auto. }
+  rewrite (parse_decimal_int ds (ut ++ rest) Hd Hne Hnt).
+  set (neg := match s with Some true => true | _ => false end).
+  destruct (float_of_decimal_int neg (digits_val ds 0) Hb) as [k [Hk Ek]]. rewrite Ek.
+  assert (Ez : sgn_of neg * Z.of_N (digits_val ds 0) = apply_sign s (digits_val ds 0)).
+  { subst neg. destruct s as [[|]|]; unfold sgn_of, apply_sign; lia. }
+  rewrite Ez.
+  assert (El : lstrip is_ws_re (ut ++ rest) = ut ++ rest /\ span is_word (ut ++ rest) = (ut, rest)
+               /\ lstrip is_ws_re rest = tl rest).
+  { destruct Hu as [[-> ->]|[u [-> Hr]]]; [repeat split; reflexivity|].
+    destruct (unit_text_head u) as [cu [ru [Eu [Hu1 _]]]].
+    split; [rewrite Eu; simpl; rewrite Hu1; reflexivity|]. split; [apply span_word_unit; auto|].
+    destruct Hr as [-> |[c [r [-> Hc]]]]; [reflexivity|]. simpl. rewrite Hc. reflexivity. }
+  destruct El as [El1 [El2 El3]].
+  rewrite El1, El2, Hf, td_term_int by auto.
+  destruct (td_in_range (apply_sign s (digits_val ds 0) * f)); [|reflexivity].
+  destruct (td_in_range (sum + apply_sign s (digits_val ds 0) * f)); [|reflexivity].
+  rewrite El3. reflexivity.
+Qed.
+
+Lemma span_spec p t : forall a b, span p t = (a, b) -> t = a ++ b /\ all_true p a.
+Proof.
+  induction t as [|c t IH]; intros a b H; simpl in H.
+  - inversion H; subst. split; [reflexivity|constructor].
+  - destruct (p c) eqn:E.
+    + destruct (span p t) as [a' b']. inversion H; subst. destruct (IH a' b eq_refl) as [-> Ha].
+      split; [reflexivity|constructor; auto].
+    + inversion H; subst. split; [reflexivity|constructor].
+Qed.
+
+Lemma assoc_unit_spec u l f : assoc_unit u l = Some f -> exists x, u = unit_text x /\ f = unit_us x.
+Proof.
+  induction l as [|x l IH]; simpl; [discriminate|].
+  destruct (text_eqb u (unit_text x)) eqn:E; auto. intros [= <-]. apply text_eqb_true in E. eauto.
+Qed.
+
+Lemma td_token_spec last tok v : td_token last tok = Some v ->
+  exists s ds ut f, tok = sign_text s ++ ds ++ ut /\ digits ds /\ ds <> [] /\ Z.of_N (digits_val ds 0) < two53
+    /\ unit_factor ut = Some f /\ v = apply_sign s (digits_val ds 0) * f
+    /\ ((ut = [] /\ last = true) \/ exists u, ut = unit_text u).
+Proof.
+  unfold td_token. intros H.
+  assert (Hs : exists s, tok = sign_text s ++ snd (split_sign tok) /\ fst (split_sign tok) = match s with Some true => true | _ => false end).
+  { destruct tok as [|c t]; [exists None; split; reflexivity|]. simpl.
+    destruct (N.eqb_spec c 45); [subst; exists (Some true); split; reflexivity|].
+    destruct (N.eqb_spec c 43); [subst; exists (Some false); split; reflexivity|].
+    exists None. split; reflexivity. }
+  destruct Hs as [s [Et En]]. destruct (split_sign tok) as [neg b]. simpl in Et, En.
+  destruct (span is_digit b) as [ds u] eqn:Es. apply span_spec in Es as [Eb Hd].
+  destruct ds as [|d0 ds0] eqn:Eds; [discriminate|]. rewrite <- Eds in *.
+  destruct (Z.leb_spec two53 (Z.of_N (digits_val ds 0))); [discriminate|].
+  assert (Hne : ds <> []) by (rewrite Eds; discriminate).
+  destruct u as [|cu ru] eqn:Eu.
+  - destruct last; [|discriminate]. inversion H; subst v.
+    exists s, ds, [], 1000000. rewrite Et, Eb. repeat split; auto.
+    subst neg. destruct s as [[|]|]; reflexivity.
+  - rewrite <- Eu in *. destruct (assoc_unit u all_units) as [f|] eqn:Ea; [|discriminate].
+    inversion H; subst v. destruct (assoc_unit_spec _ _ _ Ea) as [x [Ex Ef]].
+    exists s, ds, u, f. rewrite Et, Eb. repeat split; auto.
+    + rewrite Ex, Ef. apply unit_factor_text.
+    + subst neg. destruct s as [[|]|]; reflexivity.
+    + right. eauto.
+Qed.
+
+Lemma split_on_nonempty sep t : split_on sep t <> [].
+Proof. destruct t as [|c t]; simpl; [discriminate|]. destruct (c =? sep)%N; [discriminate|]. destruct (split_on sep t); discriminate. Qed.
+
+Lemma join_split sep t : join sep (split_on sep t) = t.
+Proof.
+  induction t as [|c t IH]; [reflexivity|]. simpl.
+  pose proof (split_on_nonempty sep t) as Hne.
+  destruct (N.eqb_spec c sep) as [->|Hc].
+  - destruct (split_on sep t) as [|p ps] eqn:E; [contradiction|].
+    change (join sep ([] :: p :: ps)) with ([] ++ sep :: join sep (p :: ps)). rewrite IH. reflexivity.
+  - destruct (split_on sep t) as [|p ps] eqn:E; [contradiction|].
+    destruct ps as [|q ps]; simpl in *; rewrite <- IH; reflexivity.
+Qed.
+
+Lemma token_head last tok v : td_token last tok = Some v -> exists c r, tok = c :: r /\ is_ws_re c = false.
+Proof.
+  intros H. destruct (td_token_spec _ _ _ H) as [s [ds [ut [f [E [Hd [Hne _]]]]]]]. subst tok.
+  destruct s as [[|]|]; simpl; [eexists; eexists; split; reflexivity..|].
+  destruct ds as [|d ds']; [contradiction|]. inversion Hd; subst. exists d, (ds' ++ ut). split; [reflexivity|].
+  apply digit_not_ws_re; auto.
+Qed.
+
+Lemma td_sum_sound toks : forall acc S fuel,
+  td_sum toks acc = Some S -> (length (join 32 toks) <= fuel)%nat ->
+  td_loop fuel (join 32 toks) acc = Ok S.
+Proof.
+  induction toks as [|t ts IH]; intros acc S fuel H Hf.
+  - simpl in *. inversion H; subst. destruct fuel; reflexivity.
+  - cbn [td_sum] in H.
+    destruct (td_token (match ts with [] => true | _ => false end) t) as [v|] eqn:Et; [|discriminate].
+    destruct (td_in_range v && td_in_range (acc + v)) eqn:Er; [|discriminate].
+    apply andb_true_iff in Er as [Er1 Er2].
+    destruct (td_token_spec _ _ _ Et) as [s [ds [ut [f [E [Hd [Hne [Hb [Hfac [Ev Hut]]]]]]]]]].
+    remember (match ts with [] => [] | _ => 32%N :: join 32 ts end) as rest eqn:Erest.
+    assert (Ej : join 32 (t :: ts) = sign_text s ++ ds ++ ut ++ rest).
+    { subst rest t. destruct ts as [|t2 ts]; [simpl; rewrite app_nil_r; reflexivity|].
+      change (join 32 ((sign_text s ++ ds ++ ut) :: t2 :: ts)) with ((sign_text s ++ ds ++ ut) ++ 32%N :: join 32 (t2 :: ts)).
+      rewrite <- !app_assoc. reflexivity. }
+    assert (Hu : unit_ok ut rest).
+    { destruct ts as [|t2 ts'].
+      - subst rest. destruct Hut as [[-> _]|[u Eu]]; [left; auto|right; exists u; split; auto; left; reflexivity].
+      - destruct Hut as [[_ Hl]|[u Eu]]; [discriminate|]. right. exists u. split; auto. right.
+        cbn [td_sum] in H.
+        destruct (td_token (match ts' with [] => true | _ => false end) t2) as [v2|] eqn:Et2; [|discriminate].
+        destruct (token_head _ _ _ Et2) as [c [r [Ec Hc]]]. subst rest.
+        destruct ts' as [|t3 ts'].
+        + exists c, r. simpl. rewrite Ec. auto.
+        + exists c, (r ++ 32%N :: join 32 (t3 :: ts')).
+          change (join 32 (t2 :: t3 :: ts')) with (t2 ++ 32%N :: join 32 (t3 :: ts')). rewrite Ec. auto. }
+    rewrite Ej in *.
+    assert (Hlen : (1 <= length (sign_text s ++ ds ++ ut ++ rest))%nat).
+    { rewrite !app_length. destruct ds; [contradiction|]. simpl. lia. }
+    destruct fuel as [|fuel]; [lia|].
+    rewrite (td_round_gen fuel s ds ut f rest acc) by auto. rewrite <- Ev, Er1, Er2.
+    assert (Etl : tl rest = join 32 ts) by (subst rest; destruct ts; reflexivity).
+    rewrite Etl. apply IH; auto.
+    rewrite <- Etl. assert (length (tl rest) <= length rest)%nat by (destruct rest; simpl; lia).
+    rewrite !app_length in Hf. rewrite !app_length in Hlen. destruct ds; [contradiction|]. simpl in *. lia.
+Qed.
+
+Theorem td_ref_sound t S : td_ref t = Some S -> parse_timedelta t = Ok S.
+Proof.
+  unfold td_ref, parse_timedelta. destruct t as [|c t']; [intros [= <-]; reflexivity|].
+  intros H. rewrite <- (join_split 32 (c :: t')) at 2. apply td_sum_sound; auto.
+  rewrite join_split. lia.
 Qed.
